@@ -43,6 +43,8 @@ pub struct ScriptedReader {
     pub default: RStep,
     pub log: Vec<ReadLog>,
     pub logging: bool,
+    /// number of poll_read calls so far, readable while a future borrows the reader
+    pub calls: Arc<std::sync::atomic::AtomicUsize>,
 }
 
 impl ScriptedReader {
@@ -54,6 +56,7 @@ impl ScriptedReader {
             default,
             log: Vec::new(),
             logging: true,
+            calls: Arc::new(std::sync::atomic::AtomicUsize::new(0)),
         }
     }
     /// everything at once, then EOF
@@ -69,6 +72,7 @@ impl AsyncRead for ScriptedReader {
         buf: &mut ReadBuf<'_>,
     ) -> Poll<io::Result<()>> {
         let me = self.get_mut();
+        me.calls.fetch_add(1, std::sync::atomic::Ordering::Relaxed);
         let step = me.script.pop_front().unwrap_or(me.default);
         let cap = buf.remaining();
         // address of the first unfilled byte the decoder offers
